@@ -32,12 +32,15 @@ def gen_cases(rng, tier):
             cases.append({'kind': 'opstr', 'n': n, 'k': k,
                           'pairs': [[list(d), list(u)] for d, u in pairs]})
     # large orbital counts, few electrons
-    bigs = [31, 32, 33, 62, 63, 64] if tier == 'quick' else [30, 31, 32, 33, 34, 61, 62, 63, 64]
+    # (two or three electrons from 34 orbitals on: an occupied orbital with index >= 32 strictly between i and j)
+    bigs = [31, 32, 33, 34, 36, 40, 48, 62, 63, 64] if tier == 'quick' else [30, 31, 32, 33, 34, 35, 36, 40, 41, 48, 56, 61, 62, 63, 64]
     for n in bigs:
-        for k in (1, 2):
-            if k == 2 and tier == 'quick' and n not in (33, 63, 64):
+        for k in (1, 2, 3):
+            if k == 2 and tier == 'quick' and n not in (33, 34, 36, 40, 48, 63, 64):
                 continue
-            ij = [(0, n - 1), (n - 1, 0), (n - 1, n - 2), (31 % n, 32 % n), (n - 1, n - 1)]
+            if k == 3 and n not in ((34, 40) if tier == 'quick' else (33, 34, 36, 40, 48)):
+                continue
+            ij = [(0, n - 1), (n - 1, 0), (n - 1, n - 2), (31 % n, 32 % n), (n - 1, n - 1), (0, min(n - 1, 34)), (1, min(n - 1, 35))]
             ij += [(rng.randrange(n), rng.randrange(n)) for _ in range(3)]
             cases.append({'kind': 'large', 'n': n, 'k': k, 'ij': [list(x) for x in ij]})
     # bit helpers
@@ -391,5 +394,5 @@ THEOREM_FILES = ['P_C05', 'P_C05_gen']
 THEOREM_NEEDS = {'P_C05_gen': ['Equiv_bits', 'Equiv_binom']}
 RULE = ('exhaustive over (norb, nele) tables up to the tier bound, every (i,j); cross-sector maps for every '
         'dn; operator-string maps for all index lists of length <= 2 plus random ones up to 4; 1/2-electron '
-        'sectors at norb in {31..33,62..64}; bit helpers on boundary and random 64-bit values. '
+        'sectors at norb in {31..34,36,40,48,62..64} (three electrons at 34, 40); bit helpers on boundary and random 64-bit values. '
         'non-trivial: table with >= 2 entries of both signs / map with >= 2 rows')
